@@ -36,6 +36,9 @@ CHECKS = {
  'C03': ('Hypothesis-generated estimation problems vs an independent simplex-QP solver with a Frank-Wolfe duality-gap certificate (differential, certified bounds)',
          'Generated-input search over measurement sets and solvers; the loss recomputed from model.project answers must lie between the certified minimum and the uniform start, and reach the optimum under iteration escalation (plateau rule; still-decreasing runs are inconclusive, never violations).',
          'Trusts the oracle solver only through its certificate (cases whose gap is not < 1e-9 are inconclusive). F14 instances (single-cell projections under MD) are a listed known finding.'),
+ 'C10': ('Hypothesis-generated zero sets, measurement histories (warm start on/off, solver per call) vs a dead-cell predicate derived from the declared zeros; all-subsets query sweep + synthetic data',
+         'Generated-input search: after the last call of a 1-3 call history every project() answer on every attribute subset, the data vector and synthetic records (round/sample) are checked against the set of cells that the declared zeros make impossible; finite/non-negative/sums-to-total asserted.',
+         'Threshold 1e-60*total instead of exact 0 (Factor.log adds 1e-100 by design). F14 instances are a listed known finding (signature tracked over the whole call history).'),
 }
 NOT_YET = 'check not built yet (work in progress in this session); see DESIGN.md for the planned check'
 
